@@ -1,6 +1,7 @@
 package main
 
 import (
+	"strings"
 	"fmt"
 	"sort"
 
@@ -27,6 +28,9 @@ func ruleOwnModel(c *Ctx) *RuleResult {
 	}
 	sort.Strings(keys)
 	for _, k := range keys {
+		if strings.HasPrefix(c.pos(e.unknown[k]), "cmd/") {
+			continue // the command-line tool is not reachable from the library's API (its own rule: J-ABS)
+		}
 		r.undecided("unknown-effect|"+k, c.pos(e.unknown[k]), "", "no effect model for this call: the mod analysis cannot decide what it writes")
 	}
 	if c.Tier == "thorough" {
